@@ -1436,7 +1436,9 @@ def interp_envelope(X, mode='upper', interp_method='splrep', extrema_opts=None,
 
     # Run interpolation on envelope - evaluate on the integer sample grid even
     # if the (parabolic-refined) extrema locations are fractional
-    t = np.arange(np.ceil(locs[0]), locs[-1])
+    # (up to and including the last integer sample below the final extremum - a
+    # location a rounding error above the last sample must not lose that sample)
+    t = np.arange(np.ceil(locs[0]), np.floor(locs[-1]) + 1)
     if interp_method == 'splrep':
         f = interp.splrep(locs, pks)
         env = interp.splev(t, f)
@@ -1447,7 +1449,7 @@ def interp_envelope(X, mode='upper', interp_method='splrep', extrema_opts=None,
         pchip = interp.pchip(locs, pks)
         env = pchip(t)
 
-    t_max = np.arange(np.ceil(locs[0]), locs[-1])
+    t_max = np.arange(np.ceil(locs[0]), np.floor(locs[-1]) + 1)
     tinds = np.logical_and((t_max >= 0), (t_max < X.shape[0]))
 
     env = np.array(env[tinds])
